@@ -78,3 +78,34 @@ Theorem C02_profile_ref_result_usable : forall idna_raw p x ref u' b,
   ProfileParseRef idna_raw p x ref = CUrl u' -> Href u' b <> None /\ Pathname u' <> None.
 Proof. exact ProfileParseRef_getters. Qed.
 Print Assumptions C02_profile_ref_result_usable.
+
+(* The public method BasicParser called directly (Model/Direct.v; compared with the implementation on every run for all 22
+   state overrides): it never runs out of fuel; it panics ONLY when called without a base with one of the three overrides
+   that read the base first (observation O6: outside the property's quantifier, which is over argument strings; model and
+   implementation agree on it); with the overrides the library's own setters use it never panics and leaves a well-formed
+   record (for PathStart on an opaque path: unless the parser fails on validation errors - the setter never makes that
+   call, and the witness is exhibited); with a base it never panics whatever the override. Proofs/DirectTotal.v. *)
+From Verif Require Import Model.Direct Proofs.DirectTotal.
+
+Theorem C02_direct_never_out_of_fuel : forall idna_raw c base start ov input l,
+  direct idna_raw c base start ov input = Some l -> l <> [[70]].
+Proof. exact direct_never_out_of_fuel. Qed.
+Print Assumptions C02_direct_never_out_of_fuel.
+
+Theorem C02_direct_panic_origin : forall idna_raw c base start ov input,
+  direct idna_raw c base start ov input = Some [[33]] -> base = None /\ (ov = 5 \/ ov = 20 \/ ov = 21).
+Proof. exact direct_panic_origin. Qed.
+Print Assumptions C02_direct_panic_origin.
+
+Theorem C02_direct_setter_states_total : forall idna_raw c input base u st,
+  setter_state st -> wf u -> (forall b, base = Some b -> wf b) ->
+  (st = PathStart -> u_opaque u = false \/ c_fail c = false) ->
+  left_wf (BasicParser idna_raw c input base (Some u) (Some st)).
+Proof. exact direct_setter_states_total. Qed.
+Print Assumptions C02_direct_setter_states_total.
+
+Theorem C02_direct_all_states_total_with_base : forall idna_raw c b start ov input l,
+  direct idna_raw c (Some b) start ov input = Some l -> l <> [[33]].
+Proof. exact direct_all_states_total_with_base. Qed.
+Print Assumptions C02_direct_all_states_total_with_base.
+
